@@ -339,7 +339,8 @@ def cleanup_mark_findings(F):
         in_h = h.calls("pgcat::server::Server::sync_parameters") if h else []
         claim_ = h.calls("pgcat::server::Server::claim") if h else []
         callers = sorted({c.body.name for c in F.all_calls("pgcat::server::Server::sync_parameters")})
-        ok_reset = bool(q) and bool(rs) and all(sp.dominates(q[0].block, r_.block) for r_ in rs) and callers == [H] and len(in_h) == 1 and bool(claim_) and not [c for c in h.calls(*[x for x in SERVER_IO if not x.endswith("sync_parameters")]) if h.dominates(c.block, in_h[0].block)]
+        # (not: dominated by the query - one query per parameter in a loop is the same thing; at that point, right after the checkout, the only marks are pgcat's own)
+        ok_reset = bool(q) and bool(rs) and callers == [H] and len(in_h) == 1 and bool(claim_) and not [c for c in h.calls(*[x for x in SERVER_IO if not x.endswith("sync_parameters")]) if h.dominates(c.block, in_h[0].block)]
         why_sp = " and by sync_parameters for the SETs pgcat itself issues right after the checkout, before any client statement"
     # the SET tag marks the connection whatever Server.in_transaction says at that moment (D42): the flag follows ReadyForQuery, i.e. it is stale
     # within a multi-statement reply (`COMMIT; SET x`), and a SET inside a transaction that commits stays in force as well
@@ -436,3 +437,200 @@ def reentrant_lock_findings(F, scope=lambda n: n.startswith("pgcat::")):
                         continue
                     out.append((n, f1, c.where(), c2.where(), kinds))
     return out, n_guards
+
+
+def whole_reply_findings(F):
+    """Server::recv hands a reply out in pieces (it returns early once its buffer reaches 8196 bytes); the connection is in step with its
+    server - and Server.in_transaction is the status of the LAST request - only if every reader takes all pieces: every function of the crate
+    that calls Server::recv (found, not listed) does so in a loop that is left successfully only when is_data_available() is false.
+    Exceptions by name: the wrapper Client::receive_server_message (its callers send_and_receive_loop / handle are checked instead), the mirror
+    task (it discards what the mirror answers; nothing of it reaches a client or a connection of the main pool) and, by shape, a function
+    that reads from a connection it opened itself and drops (exec_simple_query: one row of the auth query, the connection never enters a pool).
+    Returns [(key, ok, okmsg, failmsg)]"""
+    RSM = "pgcat::client::Client::receive_server_message"
+    SARL = "pgcat::client::Client::send_and_receive_loop::{closure#0}"
+    EXEMPT = {RSM + "::{closure#0}", "pgcat::mirrors::MirroredClient::start::{closure#0}"}
+
+    def throwaway(n):
+        b_ = F.body(n)
+        return all({o.call.name for o in origins(b_, c.args[0]) if o.kind == "call"} == {"pgcat::server::Server::startup"} and
+                   not [o for o in origins(b_, c.args[0]) if o.kind == "param"] for c in b_.calls("pgcat::server::Server::recv"))
+    out = []
+    recv_callers = [n for n in F.callers_of("pgcat::server::Server::recv") if n not in EXEMPT and not throwaway(n)]
+    out.append(("recv-callers", len(recv_callers) >= 3, "%d functions call Server::recv directly (%s); each must take whole replies" % (len(recv_callers), ", ".join(n.split("::")[-2] for n in recv_callers)), "callers of Server::recv not found"))
+    for fn in [SARL] + recv_callers:
+        b = F.body(fn)
+        short = fn.split("::")[-2]
+        if not b:
+            out.append(("loop:" + short, False, "", "%s not found" % fn))
+            continue
+        sws = switches(b)
+        rcv = b.calls(RSM, "pgcat::server::Server::recv")
+        lh = [hd for hd in loop_headers(b) if any(c.block in natural_loop(b, hd) for c in rcv)]
+        if not lh:
+            out.append(("loop:" + short, False, "", "%s does not loop over the pieces of a reply: only the first piece (8 KiB) of a large reply is read, the rest stays on the connection and answers the next request" % short))
+            continue
+        hd = max(lh, key=lambda x: len(natural_loop(b, x)))
+        loop = natural_loop(b, hd)
+        T, Fa, _ = call_bool_edges(b, "pgcat::server::Server::is_data_available", switches_cache=sws)
+        fT, fF = field_bool_edges(b, "data_available", sws)
+        Fa = Fa | fF
+        exits = {(u, v) for u in loop for v in b.succ("n")[u] if v not in loop and b.blocks[v]["term"]["k"] != "unreachable" and not b.blocks[v]["cleanup"]}
+        # exits that are error returns (`?`) are fine: the transaction fails; consider exits that lead to a normal Ok continuation
+        okb = [blk for blk, i, st in b.assigns() if st["lhs"]["l"] == 0 and st["rv"]["k"] == "agg" and st["rv"].get("variant") == "Ok"]
+        errs = {c.block for c in b.calls("re:FromResidual<.*>>::from_residual$")} | {blk for blk, i, st in b.assigns() if st["rv"]["k"] == "agg" and st["rv"].get("variant") == "Err" and "result::Result" in st["rv"].get("adt", "")}
+        norm = {(u, v) for (u, v) in exits if b.reach([v], avoid_blocks=errs) & set(okb)}
+        bad = [e for e in norm if e not in Fa]
+        # each normal exit must be a data_available==false edge (or be dominated by one inside this iteration)
+        bad2 = [(u, v) for (u, v) in bad if b.uncrossed_path([c.target for c in rcv if c.block in loop and c.target is not None], [u], edges=Fa, blocks=[hd]) is not None]
+        out.append(("exit:" + short, bool(Fa) and bool(norm) and not bad2, "the receive loop of %s is left (successfully) only when is_data_available() is false" % short,
+                    "the receive loop of %s can stop while the server still has data for this request" % short))
+    return out
+
+
+def own_request_findings(F):
+    """pgcat's own requests on a server connection (clean-up, parameter sync, health check, prewarm, Parse of a cached statement, Close of
+    evicted ones) are followed by ONE receive loop, which ends at the first ReadyForQuery. So what is sent before that loop must make the
+    server send exactly one ReadyForQuery: exactly one `simple_query(..)` ('Q') or `sync()` ('S') message goes into the buffer that is
+    sent - no way leads from one such message being put into the buffer to another one (or, round a loop, to itself) without the buffer
+    being sent in between. A buffer received as a parameter is followed to the callers (two levels).
+    Returns ([(key, ok, okmsg, failmsg)], n_sites)"""
+    ENDERS = ("pgcat::messages::simple_query", "pgcat::messages::sync")
+    out = []
+    sites = 0
+
+    def analyse(b, sendcall, argi, depth, label):
+        nonlocal sites
+        vis = set()
+        os_ = origins(b, sendcall.args[argi], visited=vis)
+        prm = sorted({o.what for o in os_ if o.kind == "param" and isinstance(o.what, int)})
+        bufs = set(vis)
+        ev = []
+        for e in b.calls(*ENDERS):
+            if e.dest["l"] in bufs:
+                ev.append(e)
+                continue
+            for m in b.calls():
+                if m.block == e.block or len(m.args) < 2 or m.name.startswith("pgcat::"):
+                    continue
+                v0 = set()
+                origins(b, m.args[0], visited=v0)
+                if not (v0 & bufs):
+                    continue
+                v1 = set()
+                origins(b, m.args[1], visited=v1, taint=True)
+                if e.dest["l"] in v1:
+                    ev.append(e)
+                    break
+        if ev:
+            sites += 1
+            starts = [e.target for e in ev if e.target is not None]
+            wit = b.uncrossed_path(starts, [e.block for e in ev], blocks=[sendcall.block])
+            out.append(("one-ender:" + label, wit is None, "%s: exactly one Query / Sync message goes into what is sent before the reply is awaited (%d site(s))" % (label, len(ev)),
+                        "%s: more than one Query / Sync message can go into one send (%s): the server answers each with its own ReadyForQuery, the receive loop stops at the first and the "
+                        "remaining replies answer the next requests on this connection - the client's among them" % (label, wit and b.describe_path(wit))))
+        elif prm and depth < 2:
+            # the buffer is the caller's
+            fn = b.name[:-len("::{closure#0}")] if b.name.endswith("::{closure#0}") else b.name
+            callers = list(F.all_calls(fn))
+            if not callers:
+                out.append(("one-ender:" + label, False, "", "%s sends a buffer it was given, and no caller was found" % label))
+            for k in callers:
+                # argument index in the caller: the coroutine's parameters are the fn's in order; _1 is the coroutine itself
+                pb = F.body(fn) if fn != b.name else None
+                idx = None
+                if pb is not None:
+                    # parameter p of the closure body corresponds to upvar/arg: find which fn argument it captures
+                    for o in os_:
+                        if o.kind == "param" and o.proj and o.proj[0].startswith("."):
+                            idx = int(o.proj[0][1:]) if o.proj[0][1:].isdigit() else None
+                else:
+                    idx = prm[0] - 1
+                if idx is None or idx >= len(k.args):
+                    out.append(("one-ender:" + label, False, "", "%s: cannot follow the sent buffer to caller %s" % (label, k.body.name)))
+                    continue
+                analyse(k.body, k, idx, depth + 1, "%s<-%s" % (label, k.body.name.split("::")[-2]))
+        else:
+            out.append(("one-ender:" + label, False, "", "%s: no Query / Sync message found in what is sent before the reply loop" % label))
+    EXEMPT = {"pgcat::client::Client::receive_server_message::{closure#0}", "pgcat::mirrors::MirroredClient::start::{closure#0}"}
+    for n in F.callers_of("pgcat::server::Server::recv"):
+        if n in EXEMPT:
+            continue
+        b = F.body(n)
+        for s_ in b.calls("pgcat::server::Server::send"):
+            analyse(b, s_, 1, 0, n.split("::")[-2])
+    return out, sites
+
+
+def pool_cell_findings(F, fields):
+    """from_config builds one ConnectionPool per (pool section, user) inside nested loops. A shared cell (Arc<..>) of that object is the pool's own
+    only if it is allocated inside every loop that contains the construction of the object: hoisted out of the user loop, all users of a pool
+    section share it. Returns [(field, ok, allocation names)] for the given fields"""
+    out = []
+    for b, blk, st in F.aggregates("pgcat::pool::ConnectionPool"):
+        if "from_config" not in b.name:
+            continue
+        rv = st["rv"]
+        heads = loop_headers(b)
+        inl = {hd for hd in heads if blk in natural_loop(b, hd)}
+        for f, op in zip(rv["fields"], rv["ops"]):
+            if f not in fields:
+                continue
+            allocs = [o.call for o in origins(b, op, taint=True) if o.kind == "call" and re.search(r"::(new|default|with_capacity)$", o.call.name)]
+            ok = bool(inl) and bool(allocs) and all(inl <= {hd for hd in heads if a.block in natural_loop(b, hd)} for a in allocs)
+            out.append((f, ok, sorted(a.name.split("::")[-2] + "::" + a.name.split("::")[-1] for a in allocs)))
+    return out
+def definition_identity_findings(F):
+    """whether a reload changes anything is decided by comparing definitions (Pool::hash_value against ConnectionPool.config_hash; Config != Config):
+    every field of every struct that is part of a definition must take part, as it is. Returns [(key, ok, okmsg, failmsg)]"""
+    out = []
+    _fail = lambda key, msg: out.append((key, False, "", msg))
+    _ok = lambda key, msg: out.append((key, True, msg, ""))
+    _check = lambda ok, key, okmsg, failmsg: out.append((key, bool(ok), okmsg, failmsg))
+    # the "unchanged" test must see every part of the definition: for config::Pool and every pgcat struct
+    # reachable through its field types, Hash::hash feeds each field, untransformed, to the hasher
+    todo = ["pgcat::config::Pool"]
+    done = set()
+    while todo:
+        an = todo.pop()
+        if an in done:
+            continue
+        done.add(an)
+        adt = F.adts.get(an)
+        if adt is None or not adt.get("local"):
+            continue
+        for v in adt["variants"]:
+            for f in v["fields"]:
+                for m_ in re.findall(r"pgcat::[A-Za-z0-9_:]+", f["ty"]):
+                    todo.append(m_)
+        hb = F.body("<%s as core::hash::Hash>::hash" % an)
+        if hb is None:
+            _fail("Hash:%s" % an.split("::")[-1], "%s (part of a pool definition) has no Hash impl in the crate" % an)
+            continue
+        if adt["kind"] != "struct":
+            _ok("Hash:%s" % an.split("::")[-1], "enum %s implements Hash" % an)
+            continue
+        want = [f["name"] for f in adt["variants"][0]["fields"]]
+        got = []
+        transformed = []
+        for c in hb.calls("re:Hash>::hash$|impl core::hash::Hash for .*>::hash$|^core::hash::Hash::hash$"):
+            os_ = origins(hb, c.args[0])
+            fl = [[p_[1:] for p_ in o.proj if p_.startswith(".")] for o in os_ if o.kind in ("place", "param") and o.what == 1]
+            fl = [x[0] for x in fl if x]
+            if any(o.kind == "call" for o in os_):
+                transformed.append(fl[0] if fl else "?")
+            got.extend(fl[:1])
+        missing = [f for f in want if f not in got]
+        _check(not missing and not transformed, "Hash:%s" % an.split("::")[-1], "%s::hash feeds every field (%d) to the hasher as is" % (an.split("::")[-1], len(want)),
+                 "the definition hash of %s %s: two pool definitions that differ there compare as unchanged and the old pool is kept after a reload" % (an, ("skips field(s) %s" % missing) if missing else ("hashes a transformed value of %s (e.g. sorted/normalised)" % transformed)))
+    # Config inequality (reload_config's `old_config != new_config`) must look at every field too
+    for an in ("pgcat::config::Config", "pgcat::config::General"):
+        eb = F.body("<%s as core::cmp::PartialEq>::eq" % an)
+        adt = F.adts.get(an)
+        if eb is None or adt is None:
+            _fail("Eq:%s" % an.split("::")[-1], "%s has no PartialEq impl in the crate" % an)
+            continue
+        want = {f["name"] for f in adt["variants"][0]["fields"]}
+        rd = fields_read(eb)
+        _check(want <= rd, "Eq:%s" % an.split("::")[-1], "%s == compares all %d fields" % (an.split("::")[-1], len(want)), "%s == ignores field(s) %s: a reload that changes only those is treated as `no change`" % (an, sorted(want - rd)))
+    return out
